@@ -289,7 +289,8 @@ func oneTag(c *mon.Case, s int, f family, ps padSel, n, size int) {
 	}
 	t1 := call("MAC(reused object)", msg[:n:n])
 	// message slice with spare capacity, twice (the library pads in place when it can)
-	buf := make([]byte, n, n+4*f.bs+8)
+	// the spare capacity holds stale non-zero bytes, as a reused read buffer would
+	buf := bytes.Repeat([]byte{0xc3}, n+4*f.bs+8)[:n]
 	copy(buf, msg)
 	t2 := call("MAC(spare capacity)", buf)
 	t3 := call("MAC(spare capacity, again)", buf)
